@@ -240,6 +240,9 @@ def claim_list_protocol(cx, res, kf):
         EC = eng.enums["ErrorCode"]
         term = info["term"]
         seen = {"close": 0, "mismatch": 0, "dotted_ok": 0, "dotted_trailing": 0, "elem": 0, "dotsym": 0, "eof": 0}
+        base_done = set()
+        from . import confirm as CF
+        CF_lists = CF.confirm(("lists",), res)
         hv = z3.Bool("hv_have_value_0")
         for t in terms:
             st = t.state
@@ -250,6 +253,10 @@ def claim_list_protocol(cx, res, kf):
             if not st.notes.get("in"):
                 res.violations.append({"what": "%s: path never reaches the element loop: %r" % (fname, t), "replayed": None})
                 continue
+            hvl = fn.local_by_debug("have_value")
+            K.base_case(res, st, 0, base_done, lambda a: z3.Not(a["locals"][hvl].e) if hvl in a["locals"] else None,
+                        "%s: the element loop starts as if an element had already been read (`(. x)` / `()` would be misread)" % fname,
+                        CF_lists)
             out = outcome(eng, t)
             kinds = [e[0] for e in evs]
             if not evs or evs[0][0] != "ws":
